@@ -4,6 +4,7 @@ package main
 // apply known findings, write evidence, print VIOLATION lines.
 
 import (
+	"io"
 	"encoding/json"
 	"flag"
 	"fmt"
@@ -44,6 +45,26 @@ type checkCtx struct {
 	raceTmo    time.Duration
 	solverWins map[string]int
 	solverSecs float64
+	out        io.Writer // where verdict lines go (stdout; a buffer for self-test runs)
+	outRoot    string    // where query / replay files go (default <verif>/out)
+	noReplay   bool
+	selftest   map[string][]selftestResult
+	xcheck     map[string]int
+}
+
+func (cc *checkCtx) printf(format string, a ...interface{}) {
+	w := cc.out
+	if w == nil {
+		w = os.Stdout
+	}
+	fmt.Fprintf(w, format, a...)
+}
+
+func (cc *checkCtx) outDirRoot() string {
+	if cc.outRoot != "" {
+		return cc.outRoot
+	}
+	return filepath.Join(cc.verif, "out")
 }
 
 func (p *Prog) allUnits() map[string]*ssa.Function {
@@ -65,9 +86,12 @@ func contractHasTag(ct *Contract, tag string) bool {
 	return false
 }
 
+var keepProvedInstances bool
+
 func runUnit(p *Prog, name string, f *ssa.Function) *unitResult {
 	t0 := time.Now()
 	u := NewUnit(p, name, f, p.Contracts[f])
+	u.keepProved = keepProvedInstances
 	if err := u.start(); err != nil {
 		u.errs = append(u.errs, "cannot start solver: "+err.Error())
 		return &unitResult{u: u}
@@ -124,6 +148,7 @@ func cmdCheck(args []string) int {
 	t0 := time.Now()
 	p := loadAll(*repo, *verif)
 	if *tier == "thorough" {
+		keepProvedInstances = true
 		p.QueryTimeoutMs = 15000
 		p.UnitTimeout = 5 * time.Minute
 	}
@@ -145,6 +170,12 @@ func cmdCheck(args []string) int {
 	exit := 0
 	newBaseline := map[string][]string{}
 	for _, pr := range props {
+		if *tier == "thorough" && os.Getenv("GOVC_NO_SELFTEST") == "" {
+			if cc.selftest == nil {
+				cc.selftest = map[string][]selftestResult{}
+			}
+			cc.selftest[pr] = runSelftest(*repo, *verif, pr, known, baseline)
+		}
 		code, discharged := cc.checkProperty(pr, seed, known, baseline, !*noEvidence, *verbose, loadSecs)
 		newBaseline[pr] = discharged
 		if code > exit {
@@ -244,7 +275,7 @@ func (cc *checkCtx) checkProperty(prop string, seed int, known []KnownFinding, b
 	}
 	sort.Strings(primary)
 	if len(primary) == 0 {
-		fmt.Printf("UNDECIDED property=%s no contract clause is tagged with this property\n", prop)
+		cc.printf("UNDECIDED property=%s no contract clause is tagged with this property\n", prop)
 		return 3, nil
 	}
 	cc.runUnits(primary)
@@ -342,7 +373,7 @@ func (cc *checkCtx) checkProperty(prop string, seed int, known []KnownFinding, b
 		recs = append(recs, rec)
 	}
 	// 4. decide
-	outDir := filepath.Join(cc.verif, "out", prop)
+	outDir := filepath.Join(cc.outDirRoot(), prop)
 	os.RemoveAll(outDir)
 	os.MkdirAll(outDir, 0o755)
 	var wg sync.WaitGroup
@@ -369,6 +400,47 @@ func (cc *checkCtx) checkProperty(prop string, seed int, known []KnownFinding, b
 		}()
 	}
 	wg.Wait()
+	// 4b. thorough tier: a sample of the instances the incremental solver discharged is
+	// re-checked as standalone queries by all three solvers; any `sat` is a disagreement
+	xInst, xAgree, xUnknown := 0, 0, 0
+	if cc.tier == "thorough" && !cc.noReplay {
+		var xwg sync.WaitGroup
+		xsem := make(chan struct{}, 8)
+		var xmu sync.Mutex
+		for _, rec := range recs {
+			if rec.dep || rec.status != "discharged" || rec.o.Class == "final" {
+				continue
+			}
+			for i, f := range rec.o.Proved {
+				xwg.Add(1)
+				rec, f, i := rec, f, i
+				go func() {
+					defer xwg.Done()
+					xsem <- struct{}{}
+					defer func() { <-xsem }()
+					path, err := writeQueryFile(filepath.Join(outDir, "xcheck"), fmt.Sprintf("%s__x%d", rec.o.Name, i), rec.u.decls, f.Asserts, nil)
+					if err != nil {
+						return
+					}
+					rr := RaceFile(path, 30*time.Second, true)
+					os.Remove(path)
+					xmu.Lock()
+					defer xmu.Unlock()
+					xInst++
+					switch rr.Result {
+					case "unsat":
+						xAgree++
+					case "sat", "conflict":
+						engineErrs = append(engineErrs, fmt.Sprintf("solver disagreement on %s: incremental z3 answered unsat, standalone answers %v", rec.o.Name, rr.All))
+					default:
+						xUnknown++
+					}
+				}()
+			}
+		}
+		xwg.Wait()
+		cc.xcheck = map[string]int{"instances": xInst, "all_answering_solvers_agree_unsat": xAgree, "no_standalone_answer": xUnknown}
+	}
 	// 5. known findings, baseline, verdict
 	base := map[string]bool{}
 	for _, n := range baseline[prop] {
@@ -389,12 +461,12 @@ func (cc *checkCtx) checkProperty(prop string, seed int, known []KnownFinding, b
 		if kf := matchKnown(known, prop, rec.o.Name); kf != nil {
 			rec.status = "known"
 			knownMatched = append(knownMatched, rec.o.Name)
-			fmt.Printf("KNOWN-FINDING: property=%s %s %s\n", prop, rec.o.Name, kf.What)
+			cc.printf("KNOWN-FINDING: property=%s %s %s\n", prop, rec.o.Name, kf.What)
 			continue
 		}
 		if rec.status == "undecided" && len(base) > 0 && !base[rec.o.Name] {
 			undecided++
-			fmt.Printf("UNDECIDED property=%s obligation=%s (no solver decided it and it is not in the baseline of discharged obligations)\n", prop, rec.o.Name)
+			cc.printf("UNDECIDED property=%s obligation=%s (no solver decided it and it is not in the baseline of discharged obligations)\n", prop, rec.o.Name)
 			continue
 		}
 		violations++
@@ -403,7 +475,7 @@ func (cc *checkCtx) checkProperty(prop string, seed int, known []KnownFinding, b
 		if !strings.Contains(rec.detail, "reproduced") {
 			suffix = " no-failing-input-found"
 		}
-		fmt.Printf("VIOLATION property=%s replay=%s obligation=%s%s\n", prop, replay, rec.o.Name, suffix)
+		cc.printf("VIOLATION property=%s replay=%s obligation=%s%s\n", prop, replay, rec.o.Name, suffix)
 	}
 	// obligations that were discharged at baseline but no longer exist (renamed target etc.)
 	present := map[string]bool{}
@@ -417,18 +489,26 @@ func (cc *checkCtx) checkProperty(prop string, seed int, known []KnownFinding, b
 		}
 	}
 	sort.Strings(missing)
+	for _, sr := range cc.selftest[prop] {
+		if sr.Applied && !sr.Detected {
+			engineErrs = append(engineErrs, fmt.Sprintf("self-test: seeded change %s was not reported (%s)", sr.Seed, sr.Note))
+		}
+	}
 	for _, e := range engineErrs {
-		fmt.Printf("ENGINE-ERROR property=%s %s\n", prop, e)
+		cc.printf("ENGINE-ERROR property=%s %s\n", prop, e)
 	}
 	wall := time.Since(t0).Seconds() + loadSecs
+	for _, sr := range cc.selftest[prop] {
+		wall += sr.Secs
+	}
 	if writeEv {
 		cc.writeEvidence(prop, seed, recs, unitNames, isPrimary, abstractions, assumptions, knownMatched, wins, totalQueries, solverSecs, wall, violations, engineErrs, missing)
 	}
 	nOb := len(recs)
-	fmt.Printf("property=%s tier=%s units=%d obligations=%d discharged=%d known=%d violations=%d undecided=%d engine_errors=%d wall=%.1fs\n", prop, cc.tier, len(unitNames), nOb, len(discharged), len(knownMatched), violations, undecided, len(engineErrs), wall)
+	cc.printf("property=%s tier=%s units=%d obligations=%d discharged=%d known=%d violations=%d undecided=%d engine_errors=%d wall=%.1fs\n", prop, cc.tier, len(unitNames), nOb, len(discharged), len(knownMatched), violations, undecided, len(engineErrs), wall)
 	if verbose {
 		for _, rec := range recs {
-			fmt.Printf("  %-10s %s  [%s] paths=%d\n", rec.status, rec.o.Name, rec.o.Clause, rec.o.Paths)
+			cc.printf("  %-10s %s  [%s] paths=%d\n", rec.status, rec.o.Name, rec.o.Clause, rec.o.Paths)
 		}
 	}
 	if violations > 0 {
@@ -511,7 +591,7 @@ func (cc *checkCtx) decideFailure(rec *obRecord, outDir string) {
 }
 
 func (cc *checkCtx) writeReplay(prop string, rec *obRecord, outDir string) string {
-	dir := filepath.Join(cc.verif, "out", "replay")
+	dir := filepath.Join(cc.outDirRoot(), "replay")
 	os.MkdirAll(dir, 0o755)
 	path := filepath.Join(dir, sanitize(prop+"__"+rec.o.Name)+".json")
 	type failureJSON struct {
@@ -546,7 +626,12 @@ func (cc *checkCtx) writeReplay(prop string, rec *obRecord, outDir string) strin
 	if rec.o.Class == "final" {
 		doc["offending_sites"] = rec.detail
 	}
-	rp := cc.tryReplay(prop, rec)
+	var rp map[string]interface{}
+	if cc.noReplay {
+		rp = map[string]interface{}{"attempted": false, "reason": "self-test run"}
+	} else {
+		rp = cc.tryReplay(prop, rec)
+	}
 	doc["replay"] = rp
 	if rp != nil && rp["reproduced"] == true {
 		rec.detail = "reproduced"
@@ -600,7 +685,7 @@ func (cc *checkCtx) writeEvidence(prop string, seed int, recs []*obRecord, units
 	trusted := []string{
 		"x/tools go/packages + go/types + go/ssa v0.29.0 build the IR of /repo (tag verif) correctly",
 		"govc's encoding of each go/ssa instruction (DESIGN Appendix A)",
-		"z3 5.1.0 (z3-new) / z3 4.8.12 / cvc5 1.0.3 are sound when answering unsat",
+		"z3 4.8.12 (incremental session per function) and, for standalone queries, z3 5.1.0 (z3-new) / cvc5 1.0.3 are sound when answering unsat",
 		"assumed contracts on dependencies in /verif/contracts/extern/*.spec",
 		"Go memory model facts: mutual exclusion, channel FIFO (DESIGN 3.3, 3.4)",
 	}
@@ -634,6 +719,12 @@ func (cc *checkCtx) writeEvidence(prop string, seed int, recs []*obRecord, units
 		"assumptions": ass,
 		"wall_s":      wall,
 		"violations":  violations,
+	}
+	if cc.xcheck != nil {
+		ev["coverage"].(map[string]interface{})["second_solver_recheck"] = cc.xcheck
+	}
+	if st := cc.selftest[prop]; st != nil {
+		ev["coverage"].(map[string]interface{})["must_fail_selftest"] = st
 	}
 	os.MkdirAll(filepath.Join(cc.verif, "evidence"), 0o755)
 	b, _ := json.MarshalIndent(ev, "", " ")
